@@ -175,6 +175,13 @@ def run(chk):
         cfgs.append(dict(order=order, att={'a': ['b'], 'b': []}, wrong=[], fail={'a': 'none', 'b': 'none'}, polls=['a', 'b'],
                          writes=[], acc={'a': 'init', 'b': 'init'}, exported=['a', 'b'], polldur={'a': 0.3},
                          host={'a': 'b', 'b': 'b'}))
+    # one poll thread serving three modules, told to stop while it is in the poll of the first / second / third of
+    # its round: the poll in flight is finished, no other one is started
+    for order in itertools.permutations('abc'):
+        for slow in 'abc':
+            cfgs.append(dict(order=list(order), att={'a': ['c'], 'b': ['c'], 'c': []}, wrong=[], fail={m: 'none' for m in 'abc'},
+                             polls=['a', 'b', 'c'], writes=[], acc={m: 'init' for m in 'abc'}, exported=['a', 'b', 'c'],
+                             polldur={slow: 0.3}, host={'a': 'c', 'b': 'c', 'c': 'c'}))
     # a first poll that hangs: the node reports ready when the start time-out (30 s) has passed, and the shutdown
     # proceeds after its grace period although that poll is still running
     for order in (['a', 'b'], ['b', 'a']):
